@@ -19,6 +19,15 @@ Part ``bumps``  isolated bumps, one per channel, mixed with empty / too-low chan
     (6) a Gaussian bump (sigma 0.6..3, sub-pixel centre, window inside the map): per axis
         |refined-true| <= |rough-true| + 1e-4, and strictly smaller when the rough error is
         >= 0.05 px ("moves the estimate toward the true centre").
+Memory layout axis (both parts): the tensor handed to the code under test holds the case's values
+  as contiguous | channels_last | permuted view of a buffer in another axis order | slice of a
+  larger tensor (extra samples / channels / rows / columns) | strided view (steps 2-3) | expanded
+  (stride 0) view; the value model and the layout are drawn as ONE pair.  Values are identical, so
+  oracles (1)-(6) apply unchanged; the independence probes re-run one map, one whole channel
+  ``cms[:, c:c+1]`` or one whole sample ``cms[b:b+1]``;
+    (7) value, NaN pattern, the cell of a unique maximum and (same cell, non-negative patch) the
+        refined coordinates equal those for the contiguous copy.  A bucket that fails only with
+        the non-contiguous tensor carries the suffix ``:only-with-noncontiguous-layout``.
 """
 
 import numpy as np
@@ -36,7 +45,9 @@ RULE = (
     "on the border. part bumps: one isolated bump per channel (Gaussian with sub-pixel centre and sigma "
     "0.6..3, or reflection-symmetric bump centred on a cell, or empty / below-threshold channel); "
     "non-trivial = valid and invalid channels are mixed or some Gaussian centre is >= 0.05 px off its "
-    "cell (so that 'moves toward the centre' is a strict inequality). distinct by hash of the case"
+    "cell (so that 'moves toward the centre' is a strict inequality). Both parts: the values are handed "
+    "over in a drawn memory layout (contiguous / channels_last / permuted view / slice of a larger tensor / "
+    "strided / expanded), maps-part value model and layout drawn as one pair. distinct by hash of the case"
 )
 ASSUMPTIONS = [
     "maps are finite float32 tensors with |v| <= 8; NaN/inf maps are outside 'all float maps'",
@@ -59,13 +70,159 @@ ASSUMPTIONS = [
     "law (6) is asserted for patch sizes 3/5/7 with the whole window inside the map (the design-time "
     "sweep validated exactly this domain); law (5) also for patch 4 and for compactly supported bumps "
     "whose support lies inside the map while the window overhangs the border (zero padding == zeros)",
-    "single-map re-runs are done for at most 3 drawn (b,c) slots per case",
+    "single-map / whole-channel / whole-sample re-runs are done for at most 3 drawn (b,c) slots per case",
+    "memory layouts: the tensor under test always has the case's shape and values (checked, harness error "
+    "otherwise); cells of the larger tensor outside the view hold 0, +-9 or noise in [-2,2], never NaN/inf; "
+    "an 'expanded' (stride 0) view is only built when all samples (or all channels) hold identical maps - "
+    "the generator copies slot 0 over the others; every call of the code under test gets a freshly built "
+    "tensor, the numpy reference is never shared with it",
+    "layout clause (7): which of several tied maximal cells is reported is not fixed by the statement, so "
+    "a layout-dependent tie-break is only counted (class layout-changes-tie-break), not failed; refined "
+    "coordinates are compared with the contiguous copy only when both start from the same cell and the "
+    "patch is non-negative (tolerance TOL_INDEP)",
 ]
 
 TOL_INDEP = 1e-4  # same arithmetic alone / in a batch up to the batched 3x3 perspective solve
 TOL_SYM = 1e-4  # DESIGN (5): float32 centre of mass of an exactly symmetric patch; crop jitter ~1e-6
 TOL_TOWARD = 1e-4  # DESIGN (6)
 STRICT_FROM = 0.05  # rough error from which the improvement (>= 0.07 * error for sigma<=3) is measurable
+
+
+# ------------------------------------------------------------------------------------
+# memory layout axis: the SAME values handed over with different strides.  Real callers pass
+# network outputs in channels_last format, maps permuted from (S,H,W,C), channel / sample / crop
+# slices of a larger tensor, strided and expanded views; the property quantifies over "every batch
+# of confidence maps", so every oracle applies unchanged to every layout.
+
+# weights: ~1/6 plain contiguous, the rest spread over the non-contiguous kinds
+LAYOUTS = [
+    "contiguous", "contiguous", "channels_last", "channels_last", "permuted", "permuted",
+    "slice", "slice", "slice", "strided", "strided", "expanded",
+]
+# physical axis order of the buffer the (S,C,H,W) tensor is permuted back from
+PERM_ORDERS = [[0, 2, 3, 1], [0, 2, 3, 1], [0, 1, 3, 2], [1, 0, 2, 3], [2, 3, 0, 1], [3, 2, 1, 0], [0, 3, 2, 1]]
+# which axes of the larger tensor carry extra entries around the wanted block
+SLICE_AXES = ["c", "c", "c", "b", "bc", "w", "h", "hw", "cw", "bchw"]
+FILLS = ["high", "high", "zero", "low", "noise"]
+NONCONTIG_ONLY = ":only-with-noncontiguous-layout"
+PROBE_KINDS = ["cell", "cell", "channel", "channel", "sample"]
+MODEL_LAYOUT_PAIRS = [(m, l) for m in pm.GLOBAL_MODELS for l in LAYOUTS]
+
+
+def draw_layout(draw, st, kind):
+    """JSON description of one memory layout of the given kind (independent of the map shape)."""
+    lay = {"kind": kind}
+    if kind == "permuted":
+        lay["order"] = list(draw(st.sampled_from(PERM_ORDERS)))
+    elif kind == "slice":
+        axes = draw(st.sampled_from(SLICE_AXES))
+        pads = [0] * 8
+        for i, a in enumerate("bchw"):
+            if a in axes:
+                lo, hi = draw(st.sampled_from([(1, 0), (0, 1), (1, 1), (2, 1), (0, 2)]))
+                pads[2 * i], pads[2 * i + 1] = lo, hi
+        lay.update(pads=pads, fill=draw(st.sampled_from(FILLS)), seed=draw(st.integers(0, 2**31 - 1)))
+    elif kind == "strided":
+        steps = list(draw(st.sampled_from([(1, 1, 1, 2), (1, 1, 2, 1), (1, 1, 2, 2), (1, 2, 1, 1), (2, 1, 1, 1), (1, 2, 1, 3), (2, 2, 2, 2), (1, 1, 3, 2)])))
+        lay.update(steps=steps, fill=draw(st.sampled_from(FILLS)), seed=draw(st.integers(0, 2**31 - 1)))
+    elif kind == "expanded":
+        lay["dim"] = draw(st.sampled_from([0, 1]))
+    return lay
+
+
+def expand_values(arr, layout):
+    """An expanded (stride 0) view is only legal when all samples (or channels) hold the same maps:
+    the generator copies slot 0 of the expanded axis over the others (in place)."""
+    if layout["kind"] == "expanded":
+        if layout["dim"] == 0:
+            arr[1:] = arr[:1]
+        else:
+            arr[:, 1:] = arr[:, :1]
+    return arr
+
+
+def _filler(shape, layout):
+    """Content of the larger tensor around / between the wanted cells.  'high' (9.0) exceeds every map
+    value, so code that reads outside the view reports it; never NaN/inf."""
+    fill = layout.get("fill", "zero")
+    if fill == "noise":
+        return np.random.RandomState(int(layout["seed"])).uniform(-2.0, 2.0, size=shape).astype(pm.F32)
+    return np.full(shape, {"high": 9.0, "low": -9.0, "zero": 0.0}[fill], dtype=pm.F32)
+
+
+def build_layout(arr, layout, torch):
+    """A NEW float32 tensor of shape arr.shape holding exactly arr's values in the given layout.
+    Called once per call of the code under test: nothing the callee does to its argument (or to the
+    storage around it) can reach the numpy reference or a later call."""
+    kind = layout["kind"]
+    B, C, H, W = arr.shape
+    if kind == "contiguous":
+        t = torch.from_numpy(arr.copy())
+    elif kind == "channels_last":
+        t = torch.from_numpy(arr.copy()).contiguous(memory_format=torch.channels_last)
+    elif kind == "permuted":
+        order = [int(i) for i in layout["order"]]
+        base = torch.from_numpy(np.ascontiguousarray(arr.transpose(order)))
+        t = base.permute(*[order.index(i) for i in range(4)])
+    elif kind == "slice":
+        p = [int(i) for i in layout["pads"]]
+        big = _filler((B + p[0] + p[1], C + p[2] + p[3], H + p[4] + p[5], W + p[6] + p[7]), layout)
+        sl = (slice(p[0], p[0] + B), slice(p[2], p[2] + C), slice(p[4], p[4] + H), slice(p[6], p[6] + W))
+        big[sl] = arr
+        t = torch.from_numpy(big)[sl]
+    elif kind == "strided":
+        s = [int(i) for i in layout["steps"]]
+        big = _filler((B * s[0], C * s[1], H * s[2], W * s[3]), layout)
+        sl = (slice(None, None, s[0]), slice(None, None, s[1]), slice(None, None, s[2]), slice(None, None, s[3]))
+        big[sl] = arr
+        t = torch.from_numpy(big)[sl]
+    elif kind == "expanded":
+        first = arr[:1] if int(layout["dim"]) == 0 else arr[:, :1]
+        if not np.array_equal(np.broadcast_to(first, arr.shape), arr):
+            raise runner.HarnessError("layout generator: 'expanded' needs identical maps along the expanded axis")
+        t = torch.from_numpy(first.copy()).expand(B, C, H, W)
+    else:
+        raise runner.HarnessError(f"unknown layout {kind}")
+    if tuple(t.shape) != arr.shape or t.dtype != torch.float32 or not torch.equal(t, torch.from_numpy(arr)):
+        raise runner.HarnessError(f"layout builder {layout} changed the values")
+    return t
+
+
+def layout_classes(res, arr, layout, torch):
+    noncontig = not build_layout(arr, layout, torch).is_contiguous()
+    res.cls(f"layout={layout['kind']}", "layout-strides=" + ("noncontiguous" if noncontig else "contiguous"))
+    return noncontig
+
+
+def attribute_layout(res, layout, rerun_contiguous):
+    """Failure triage only (never runs on a passing case): a bucket that fails with the drawn layout but
+    not with the contiguous copy of the same values gets the suffix NONCONTIG_ONLY, so that a
+    layout-specific root cause is told apart from one that shows for every layout."""
+    if layout["kind"] == "contiguous" or not res.failures:
+        return res
+    ref = {b for b, _ in rerun_contiguous().failures}
+    res.failures = [
+        (b if (b in ref or b.startswith("layout:")) else b + NONCONTIG_ONLY, m + ("" if b in ref else f" [layout {layout}]"))
+        for b, m in res.failures
+    ]
+    return res
+
+
+def _block(kind, b, c):
+    """Index of the sub-batch one independence probe looks at: one map, one whole channel (all
+    samples - a non-contiguous view of a contiguous batch when B > 1) or one whole sample."""
+    if kind == "channel":
+        return (slice(None), slice(c, c + 1))
+    if kind == "sample":
+        return (slice(b, b + 1), slice(None))
+    return (slice(b, b + 1), slice(c, c + 1))
+
+
+def _probes(case):
+    out = []
+    for p in case.get("probes", []):
+        out.append((int(p[0]), int(p[1]), p[2] if len(p) > 2 else "cell"))
+    return out
 
 
 def _struct(res, where, out, B, C, torch):
@@ -161,6 +318,12 @@ def judge_refined(res, arr, thr, patch, rough, status, refined, prefix="refine")
 
 
 def evaluate_maps(case):
+    layout = case.get("layout") or {"kind": "contiguous"}
+    res = _evaluate_maps(case, layout)
+    return attribute_layout(res, layout, lambda: _evaluate_maps(case, {"kind": "contiguous"}))
+
+
+def _evaluate_maps(case, layout):
     import torch
 
     from sleap_nn.inference.peak_finding import find_global_peaks, find_global_peaks_rough
@@ -170,8 +333,10 @@ def evaluate_maps(case):
     B, C, H, W = arr.shape
     thr = float(case["thr"])
     patch = int(case["patch"])
-    probes = [tuple(p) for p in case.get("probes", [])]
-    cms = torch.from_numpy(arr.copy())
+    probes = _probes(case)
+
+    def cms():
+        return build_layout(arr, layout, torch)
 
     # ---------------- classes / non-triviality (from the input only)
     n_valid = n_invalid = 0
@@ -202,20 +367,25 @@ def evaluate_maps(case):
         "BC=1" if B * C == 1 else ("BC=2-4" if B * C <= 4 else "BC=5+"),
         "channels=mixed-valid-invalid" if mixed else ("channels=all-valid" if n_valid else "channels=all-invalid"),
     )
+    noncontig = layout_classes(res, arr, layout, torch)
+    res.cls(f"model={case['model']}|layout={layout['kind']}")
     if tie:
         res.cls("tied-maxima")
     if spread:
         res.cls("tied-maxima-on-different-rows-and-columns")
+        res.cls("tied-maxima-on-different-rows-and-columns|layout-strides=" + ("noncontiguous" if noncontig else "contiguous"))
     if border:
         res.cls("maximum-on-border-or-corner")
     if at_thr:
         res.cls("maximum-equals-threshold")
     if (arr < 0).any():
         res.cls("has-negative-values")
+    for _, _, k in probes:
+        res.cls(f"probe={k}")
     res.n_evals = B * C
 
     # ---------------- (1) (2)
-    out = runner.guarded(res, "global", find_global_peaks_rough, cms, thr)
+    out = runner.guarded(res, "global", find_global_peaks_rough, cms(), thr)
     if out is runner.FAILED:
         return res
     rough = _struct(res, "global", out, B, C, torch)
@@ -224,27 +394,29 @@ def evaluate_maps(case):
     status = judge_rough(res, arr, thr, rough)
 
     # ---------------- (3) rough
-    for b, c in probes:
-        one = runner.guarded(res, "independence", find_global_peaks_rough, cms[b : b + 1, c : c + 1], thr)
+    for b, c, kind in probes:
+        blk = _block(kind, b, c)
+        nb, nc = rough[1][blk].shape
+        one = runner.guarded(res, "independence", find_global_peaks_rough, cms()[blk], thr)
         if one is runner.FAILED:
             continue
-        one = _struct(res, "independence", one, 1, 1, torch)
+        one = _struct(res, "independence", one, nb, nc, torch)
         if one is None:
             continue
-        res.n_evals += 1
-        if not (_same(one[0][0, 0], rough[0][b, c]) and _same(one[1][0, 0], rough[1][b, c])):
+        res.n_evals += nb * nc
+        if not (_same(one[0], rough[0][blk]) and _same(one[1], rough[1][blk])):
             res.fail(
                 "independence:rough",
-                f"(b={b},c={c}) inside the batch {rough[0][b, c].tolist()} / {float(rough[1][b, c])!r}, alone {one[0][0, 0].tolist()} / {float(one[1][0, 0])!r}",
+                f"{kind} probe (b={b},c={c}): inside the batch {rough[0][blk].tolist()} / {rough[1][blk].tolist()}, alone {one[0].tolist()} / {one[1].tolist()}",
             )
 
     # ---------------- (4)
-    g0 = runner.guarded(res, "refine-none", find_global_peaks, cms, thr, None, patch)
+    g0 = runner.guarded(res, "refine-none", find_global_peaks, cms(), thr, None, patch)
     if g0 is not runner.FAILED:
         g0 = _struct(res, "refine-none", g0, B, C, torch)
         if g0 is not None and not (_same(g0[0], rough[0]) and _same(g0[1], rough[1])):
             res.fail("refine:none-equals-rough", "find_global_peaks(refinement=None) differs from find_global_peaks_rough")
-    g1 = runner.guarded(res, "refine", find_global_peaks, cms, thr, "integral", patch)
+    g1 = runner.guarded(res, "refine", find_global_peaks, cms(), thr, "integral", patch)
     if g1 is runner.FAILED:
         return res
     g1 = _struct(res, "refine", g1, B, C, torch)
@@ -255,26 +427,84 @@ def evaluate_maps(case):
         res.cls(f"refine={pc}-patch")
 
     # ---------------- (3) refined
-    for b, c in probes:
-        one = runner.guarded(res, "independence", find_global_peaks, cms[b : b + 1, c : c + 1], thr, "integral", patch)
+    for b, c, kind in probes:
+        blk = _block(kind, b, c)
+        nb, nc = rough[1][blk].shape
+        one = runner.guarded(res, "independence", find_global_peaks, cms()[blk], thr, "integral", patch)
         if one is runner.FAILED:
             continue
-        one = _struct(res, "independence", one, 1, 1, torch)
+        one = _struct(res, "independence", one, nb, nc, torch)
         if one is None:
             continue
-        res.n_evals += 1
-        a, o = g1[0][b, c].astype(np.float64), one[0][0, 0].astype(np.float64)
-        if status[(b, c)] == "invalid":
-            ok = bool(np.isnan(a).all() and np.isnan(o).all())
-        elif status[(b, c)] == "ok" and pclass.get((b, c)) == "nonneg":
-            ok = bool(np.isfinite(a).all() and np.isfinite(o).all() and (np.abs(a - o) <= TOL_INDEP).all())
-        else:
-            if pclass.get((b, c)) == "negative":
-                res.excluded += 1
-            continue
-        if not ok:
-            res.fail("independence:refined", f"(b={b},c={c}) refined {a.tolist()} inside the batch, {o.tolist()} alone")
+        slots = [(bb, cc) for bb in range(B)[blk[0]] for cc in range(C)[blk[1]]]
+        b0, c0 = slots[0]
+        for bb, cc in slots:
+            res.n_evals += 1
+            a, o = g1[0][bb, cc].astype(np.float64), one[0][bb - b0, cc - c0].astype(np.float64)
+            if status[(bb, cc)] == "invalid":
+                ok = bool(np.isnan(a).all() and np.isnan(o).all())
+            elif status[(bb, cc)] == "ok" and pclass.get((bb, cc)) == "nonneg":
+                ok = bool(np.isfinite(a).all() and np.isfinite(o).all() and (np.abs(a - o) <= TOL_INDEP).all())
+            else:
+                if pclass.get((bb, cc)) == "negative":
+                    res.excluded += 1
+                continue
+            if not ok:
+                res.fail("independence:refined", f"{kind} probe (b={b},c={c}), slot (b={bb},c={cc}): refined {a.tolist()} inside the batch, {o.tolist()} alone")
+
+    # ---------------- (7) layout metamorphic: same values, other strides
+    if layout["kind"] != "contiguous":
+        compare_with_contiguous(res, arr, thr, patch, status, rough, g1, pclass, find_global_peaks_rough, find_global_peaks, torch)
     return res
+
+
+def compare_with_contiguous(res, arr, thr, patch, status, rough, g1, pclass, f_rough, f_refined, torch, prefix="layout"):
+    """Clause (7).  The statement fixes value, NaN pattern and - for a unique maximum - the cell, so
+    these must agree with the result for the contiguous copy.  Which of several tied maximal cells is
+    reported is NOT fixed by the statement: a different (but maximal) cell is only counted as a class.
+    Refined coordinates are compared (TOL_INDEP, as for the single-map re-runs) where both layouts
+    start from the same cell and the patch is non-negative."""
+    B, C, H, W = arr.shape
+    ref = runner.guarded(res, prefix, f_rough, torch.from_numpy(arr.copy()), thr)
+    if ref is runner.FAILED:
+        return
+    ref = _struct(res, prefix, ref, B, C, torch)
+    if ref is None:
+        return
+    rref = runner.guarded(res, prefix, f_refined, torch.from_numpy(arr.copy()), thr, "integral", patch)
+    if rref is not runner.FAILED:
+        rref = _struct(res, prefix, rref, B, C, torch)
+    if rref is runner.FAILED:
+        rref = None
+    for b in range(B):
+        for c in range(C):
+            res.n_evals += 1
+            if not _same(ref[1][b, c], rough[1][b, c]) or not np.array_equal(np.isnan(ref[0][b, c]), np.isnan(rough[0][b, c])):
+                res.fail(
+                    f"{prefix}:value-or-validity-differs-from-contiguous",
+                    f"(b={b},c={c}) this layout {rough[0][b, c].tolist()} / {float(rough[1][b, c])!r}, contiguous copy {ref[0][b, c].tolist()} / {float(ref[1][b, c])!r}",
+                )
+                continue
+            if status[(b, c)] != "ok":
+                continue
+            m = arr[b, c]
+            if not _same(ref[0][b, c], rough[0][b, c]):
+                if int((m == m.max()).sum()) == 1:
+                    res.fail(
+                        f"{prefix}:cell-differs-from-contiguous:unique-max",
+                        f"(b={b},c={c}) this layout {rough[0][b, c].tolist()}, contiguous copy {ref[0][b, c].tolist()}",
+                    )
+                else:
+                    res.cls("layout-changes-tie-break")
+                continue
+            if rref is None or pclass.get((b, c)) != "nonneg":
+                continue
+            a, o = g1[0][b, c].astype(np.float64), rref[0][b, c].astype(np.float64)
+            if not (np.isfinite(a).all() and np.isfinite(o).all() and (np.abs(a - o) <= TOL_INDEP).all()):
+                res.fail(
+                    f"{prefix}:refined-differs-from-contiguous",
+                    f"(b={b},c={c}) same cell {rough[0][b, c].tolist()}: refined {a.tolist()} for this layout, {o.tolist()} for the contiguous copy (patch {patch})",
+                )
 
 
 # ------------------------------------------------------------------------------------
@@ -304,6 +534,12 @@ def render_bump(spec, H, W):
 
 
 def evaluate_bumps(case):
+    layout = case.get("layout") or {"kind": "contiguous"}
+    res = _evaluate_bumps(case, layout)
+    return attribute_layout(res, layout, lambda: _evaluate_bumps(case, {"kind": "contiguous"}))
+
+
+def _evaluate_bumps(case, layout):
     import torch
 
     from sleap_nn.inference.peak_finding import find_global_peaks, find_global_peaks_rough
@@ -316,7 +552,6 @@ def evaluate_bumps(case):
     arr = np.zeros((B, C, H, W), dtype=pm.F32)
     for i, sp in enumerate(specs):
         arr[i // C, i % C] = render_bump(sp, H, W)
-    cms = torch.from_numpy(arr.copy())
     kinds = [sp["kind"] for sp in specs]
     n_valid = sum(k in ("gauss", "symmetric") for k in kinds)
     n_invalid = len(kinds) - n_valid
@@ -331,16 +566,17 @@ def evaluate_bumps(case):
         res.cls(f"bump={k}")
     if n_invalid and kinds[0] not in ("gauss", "symmetric"):
         res.cls("invalid-channel-before-valid" if n_valid else "all-invalid")
+    layout_classes(res, arr, layout, torch)
     res.n_evals = 0
 
-    out = runner.guarded(res, "global", find_global_peaks_rough, cms, thr)
+    out = runner.guarded(res, "global", find_global_peaks_rough, build_layout(arr, layout, torch), thr)
     if out is runner.FAILED:
         return res
     rough = _struct(res, "global", out, B, C, torch)
     if rough is None:
         return res
     status = judge_rough(res, arr, thr, rough)
-    g1 = runner.guarded(res, "bump", find_global_peaks, cms, thr, "integral", patch)
+    g1 = runner.guarded(res, "bump", find_global_peaks, build_layout(arr, layout, torch), thr, "integral", patch)
     if g1 is runner.FAILED:
         return res
     g1 = _struct(res, "bump", g1, B, C, torch)
@@ -403,7 +639,12 @@ def strategy_maps():
 
     @st.composite
     def build(draw):
-        shape_cls, B, C, H, W, model, arr = pm.draw_maps(draw, st, pm.GLOBAL_MODELS)
+        # value model and memory layout are ONE choice, so that every pair (in particular tied maxima x
+        # each non-contiguous layout) is reached as often as its weight says
+        model, lkind = draw(st.sampled_from(MODEL_LAYOUT_PAIRS))
+        shape_cls, B, C, H, W, model, arr = pm.draw_maps(draw, st, [model])
+        layout = draw_layout(draw, st, lkind)
+        expand_values(arr, layout)
         thr_kind, thr = pm.draw_threshold(draw, st, arr)
         # per-channel validity edits: push below thr / max == thr / max one ulp below thr
         mode = draw(st.sampled_from(["none", "none", "some", "some", "some", "all-below"]))
@@ -423,16 +664,21 @@ def strategy_maps():
                         m[m == m.max()] = lim
                         arr[b, c] = np.minimum(m, lim)
         patch = draw(st.sampled_from([3, 3, 5, 5, 5, 7, 4, 4]))
+        expand_values(arr, layout)  # the per-channel edits above must not break the expanded axis
         slots = [(b, c) for b in range(B) for c in range(C)]
         if len(slots) > 3:
             slots = draw(st.lists(st.sampled_from(slots), min_size=3, max_size=3, unique=True))
+        # a probe re-runs one map alone, one whole channel (cms[:, c:c+1]: strided whenever B > 1) or one
+        # whole sample (cms[b:b+1]); for B*C == 1 all three are the batch itself
+        kinds = [draw(st.sampled_from(PROBE_KINDS)) if B * C > 1 else "cell" for _ in slots]
         return {
             "model": model,
             "shape": shape_cls,
             "thr_kind": thr_kind,
             "thr": thr,
             "patch": patch,
-            "probes": [list(s) for s in slots],
+            "probes": [[s[0], s[1], k] for s, k in zip(slots, kinds)],
+            "layout": layout,
             "maps": pm.to_case_maps(arr),
         }
 
@@ -488,7 +734,11 @@ def strategy_bumps():
                         row.append(pm.f32(top * draw(st.floats(0.0, 0.9375, allow_nan=False, width=32))))
                 table.append(row)
             chans.append({"kind": "symmetric", "cell": [cellx, celly], "table": table, "overhang": bool(overhang)})
-        return {"patch": patch, "H": H, "W": W, "B": B, "C": C, "thr": thr, "channels": chans}
+        layout = draw_layout(draw, st, draw(st.sampled_from(LAYOUTS)))
+        if layout["kind"] == "expanded":  # identical channel specs along the expanded axis
+            for i in range(B * C):
+                chans[i] = chans[i % C] if layout["dim"] == 0 else chans[(i // C) * C]
+        return {"patch": patch, "H": H, "W": W, "B": B, "C": C, "thr": thr, "channels": chans, "layout": layout}
 
     return build()
 
